@@ -144,7 +144,8 @@ def render_cmp(st, h):
 def set_args(sid, S, h):
     """Python arguments of one use of set `sid`, structured as the spec's SpellSet says (fresh
     constraint objects at every use)."""
-    cons = cat.builders()[sid](h['z'], None)
+    # R10b: with setlin the bounds of the set are linear constraints on 1.0*z instead of Bounds objects
+    cons = cat.builders()[sid](1.0 * h['z'] if S.get('setlin') else h['z'], None)
     sp = [e['sp'] for e in S['sets'] if e['id'] == sid][0]
     how = sp['how']
     out = []
